@@ -62,6 +62,51 @@ fn gen(args: &Args, emit: &mut dyn FnMut(Value)) {
             emit(json!({"rules": rules, "ov": null, "skipped": null, "pseed": mask, "pairs": pairs, "exh": true}));
         }
     }
+    // diff-directed hints first (empty on the unchanged tree): hinted numbers as ranks / status codes / numbers of rules,
+    // hinted strings as rule ids with prefix-related neighbours under one rank
+    let h = hints();
+    if !h.is_empty() {
+        let mut hr = Prng::new(args.seed ^ 0x4849_4e54);
+        let all_pairs = |n: usize| -> Vec<Value> { (0..n).flat_map(|i| (0..n).map(move |j| json!([i, j]))).collect() };
+        for v in c05::hint_values(&h, 65535) {
+            let ids = c05::distinct_ids(&mut hr, 4);
+            let ranks = [v, v, v.saturating_sub(1), (v + 1).min(65535)];
+            let rules: Vec<Value> = ids.iter().enumerate().map(|(ri, id)| {
+                let mut r = c05::gen_rule(&mut hr, id, ri, false, false);
+                r["rank"] = json!(ranks[ri]);
+                r["sampling"] = Value::Null;
+                if ri % 2 == 0 {
+                    r["status_code"] = json!(v);
+                }
+                r
+            }).collect();
+            emit(json!({"rules": rules, "ov": null, "skipped": null, "pseed": v, "pairs": all_pairs(4)}));
+        }
+        for k in h.sizes(9) {
+            let ids = c05::distinct_ids(&mut hr, k.min(c05::IDS.len()));
+            let rules: Vec<Value> = ids.iter().enumerate().map(|(ri, id)| {
+                let mut r = c05::gen_rule(&mut hr, id, ri, false, false);
+                r["rank"] = json!(1);
+                r["sampling"] = Value::Null;
+                r
+            }).collect();
+            let n = rules.len();
+            emit(json!({"rules": rules, "ov": null, "skipped": null, "pseed": k, "pairs": all_pairs(n.min(6))}));
+        }
+        for s in c05::hint_strings(&h) {
+            let mut ids = vec![s.clone(), format!("{s}0"), format!("{s}-1"), s.chars().take(s.chars().count().saturating_sub(1)).collect::<String>(), format!("a{s}"), s.to_uppercase()];
+            let mut seen: Vec<String> = Vec::new();
+            ids.retain(|id| if seen.contains(id) { false } else { seen.push(id.clone()); true });
+            let rules: Vec<Value> = ids.iter().enumerate().map(|(ri, id)| {
+                let mut r = c05::gen_rule(&mut hr, id, ri, false, false);
+                r["rank"] = json!(1);
+                r["sampling"] = Value::Null;
+                r
+            }).collect();
+            let n = rules.len();
+            emit(json!({"rules": rules, "ov": null, "skipped": null, "pseed": 7, "pairs": all_pairs(n)}));
+        }
+    }
     for _ in 0..args.n {
         let n = match rng.below(10) {
             0 => 2,
